@@ -2,6 +2,7 @@
 //! confinement), C05 (space accounting), C16 (FAT copies, FSInfo).
 
 use crate::fatspec::{self, FatVal, FsckOpts};
+use crate::disk::Blk;
 use crate::world::*;
 
 #[derive(Clone, Copy, PartialEq, Eq, Debug)]
@@ -57,6 +58,30 @@ impl<'a> World<'a> {
         {
             let st = self.disk.st.borrow();
             let log = &st.log[self.log_mark..];
+            // a refused call is judged on its net effect ("changes nothing on the medium"): writes that are
+            // undone again before the call returns (allocate, fail, release) leave the medium as it was
+            let mut net_changed: std::collections::BTreeSet<u32> = std::collections::BTreeSet::new();
+            if allow.refused {
+                let mut first_pre: std::collections::BTreeMap<u32, Blk> = std::collections::BTreeMap::new();
+                for e in log {
+                    if e.write && e.applied {
+                        if let Some(p) = &e.pre {
+                            first_pre.entry(e.block).or_insert(**p);
+                        }
+                    }
+                }
+                for (b, pre) in first_pre {
+                    if st.image.get(b) != pre {
+                        // the contents of a cluster that is free before and after the call are nobody's data
+                        if let (Some(vi), Region::Data(c)) = self.region_of(b) {
+                            if self.vols[vi].fat.val(c) == FatVal::Free && self.was_free_before(eff, vi, c) {
+                                continue;
+                            }
+                        }
+                        net_changed.insert(b);
+                    }
+                }
+            }
             for e in log {
                 if !e.write {
                     continue;
@@ -72,6 +97,9 @@ impl<'a> World<'a> {
                     _ => continue,
                 };
                 let diff = blk_diff(pre, data);
+                if allow.refused && !net_changed.contains(&e.block) {
+                    continue;
+                }
                 if allow.read_only && !diff.is_empty() {
                     found.push((if allow.refused { "refused-call-wrote".into() } else { "readonly-call-wrote".into() }, opk.into(), format!("block {} ({:?}), {} bytes differ", e.block, reg, diff.len())));
                     continue;
